@@ -73,6 +73,16 @@ Theorem C15_crc32_burst32_changes_checksum : forall j l1 a mid z a' mid' z' l2,
 Proof. exact crc32_burst32. Qed.
 Print Assumptions C15_crc32_burst32_changes_checksum.
 
+(* Tightness: 32 bits is the limit.  Xor-ing the 33-bit generator polynomial (bytes 80 20 83 B8 ED)
+   into any five consecutive bytes of any string leaves crc32 unchanged, so such an alteration of a
+   stored payload is NOT detected (C15_burst33_concrete below; the driver checks that the Go
+   library and DeserializeData agree with the model on this control too). *)
+Theorem C15_burst33_undetected : forall l1 a b c d e l2,
+  crc32 (l1 ++ [N.lxor a 128; N.lxor b 32; N.lxor c 131; N.lxor d 184; N.lxor e 237] ++ l2)
+  = crc32 (l1 ++ [a; b; c; d; e] ++ l2).
+Proof. exact crc32_burst33_undetected. Qed.
+Print Assumptions C15_burst33_undetected.
+
 Theorem C15_checksum_corruption_detected : forall (C : codecs) f k p u,
   dec_cks f = n_CRC32 -> bytes_ok p -> bytes_ok k -> length k = 4%nat ->
   k <> le_enc 4 (crc32 p) ->
@@ -139,3 +149,8 @@ Proof.
   apply (C15_burst32_corruption_detected id_codec 8 5); try reflexivity; try discriminate;
     try (apply bytes_okb_ok; reflexivity); cbn; lia.
 Qed.
+Example C15_burst33_concrete :
+  let p := [1;2;3;4;5;6;7;8] in
+  deserialize id_codec (8 :: le_enc 4 (crc32 p) ++ [1;2] ++ [131;36;134;190;234] ++ [8]) true
+  = Ok ([1;2;131;36;134;190;234;8], n_Uncompressed).
+Proof. vm_compute. reflexivity. Qed.
